@@ -3,12 +3,16 @@
    partition the original.  split_at, split_first / split_last (and their split_off_ twins),
    merge and partition (partition_in_place + split_at) are modelled in Parts.v as windows
    (offset, length) of one buffer and proved to divide a slice exactly (PartsProofs.v).
-   PARTIAL: into_flattened, split_at_spare, capacities of split vectors and the independence of
-   the parts under follow-up operations (growing / dropping one never changes the other) are
-   checked on the implementation (capacities add up, capacity >= len, sibling contents re-read
-   after follow-up operations) but not proved. *)
+   How split_off divides the BUFFER of a vector (SplitCap.v): each part gets a window (offset,
+   length, capacity) of the old buffer; the windows hold exactly the two parts, lie inside the
+   buffer, do not overlap, their capacities add up to the old capacity, and the spare capacity
+   goes to the window at the end of the buffer - replayed from the trace (`win=` field).
+   PARTIAL: into_flattened, split_at_spare and the independence of the parts under follow-up
+   operations (growing / dropping one never changes the other) are checked on the
+   implementation (sibling contents re-read after follow-up operations, std in lock-step) but
+   not proved. *)
 From Coq Require Import List Arith Permutation.
-From BS Require Import Colls CollsProofs Parts PartsProofs.
+From BS Require Import Colls CollsProofs Parts PartsProofs SplitCap SplitCapProofs.
 Import ListNotations.
 
 Theorem C16_split_off_code_spec : forall (A : Type) (l : list A) a b, a <= b <= length l ->
@@ -89,6 +93,35 @@ Theorem C16_partition_spec : forall (A : Type) (p : A -> bool) (l : list A),
   length (pr_first r) = length (filter p l).
 Proof. exact @op_partition_spec. Qed.
 
+(* ---- the buffer windows of split_off (FixedBumpVec::split_off, wrapped by BumpVec::split_off) *)
+Theorem C16_split_off_windows_hold_the_parts : forall (A : Type) (l : list A) cap a b, a <= b <= length l ->
+  split_off_code l a b =
+  (wview (split_off_buffer l a b) (fst (split_off_windows (length l) cap a b)),
+   wview (split_off_buffer l a b) (snd (split_off_windows (length l) cap a b))).
+Proof. exact @split_off_windows_hold_the_parts. Qed.
+
+Theorem C16_split_off_windows_spec : forall (A : Type) (l : list A) cap a b, a <= b <= length l ->
+  wview (split_off_buffer l a b) (fst (split_off_windows (length l) cap a b)) = firstn a l ++ skipn b l /\
+  wview (split_off_buffer l a b) (snd (split_off_windows (length l) cap a b)) = firstn (b - a) (skipn a l).
+Proof. exact @split_off_windows_spec. Qed.
+
+Theorem C16_split_off_windows_tile : forall len cap a b, a <= b <= len -> len <= cap ->
+  let k := fst (split_off_windows len cap a b) in
+  let o := snd (split_off_windows len cap a b) in
+  wlen k <= wcap k /\ wlen o <= wcap o /\
+  wcap k + wcap o = cap /\ wlen k + wlen o = len /\ wlen o = b - a /\
+  woff k + wcap k <= cap /\ woff o + wcap o <= cap /\
+  (woff k + wcap k <= woff o \/ woff o + wcap o <= woff k).
+Proof. exact split_off_windows_tile. Qed.
+
+Theorem C16_split_off_spare_goes_to_the_end : forall len cap a b, a <= b <= len -> len <= cap ->
+  let k := fst (split_off_windows len cap a b) in
+  let o := snd (split_off_windows len cap a b) in
+  (wcap k - wlen k) + (wcap o - wlen o) = cap - len /\
+  (woff k < woff o -> wcap k = wlen k /\ woff o + wcap o = cap) /\
+  (woff o < woff k -> wcap o = wlen o /\ woff k + wcap k = cap).
+Proof. exact split_off_spare_goes_to_the_end. Qed.
+
 Print Assumptions C16_split_off_code_spec.
 Print Assumptions C16_split_at_panics_iff.
 Print Assumptions C16_split_at_spec.
@@ -105,3 +138,7 @@ Print Assumptions C16_partition_in_place_spec.
 Print Assumptions C16_partition_spec.
 Print Assumptions C16_split_off_partition.
 Print Assumptions C16_split_off_rejects_bad_ranges.
+Print Assumptions C16_split_off_windows_hold_the_parts.
+Print Assumptions C16_split_off_windows_spec.
+Print Assumptions C16_split_off_windows_tile.
+Print Assumptions C16_split_off_spare_goes_to_the_end.
